@@ -20,6 +20,7 @@ def build(s):
     addr = 0
     opw = 8
     extra_ops = []
+    wrap = '%s'
     if k == 'width':
         opsets['s1'] = {'operand_values': {'o1': {'type': 'numeric', 'argument': {'size': w, 'byte_align': False}}}}
     elif k == 'minmax':
@@ -53,6 +54,10 @@ def build(s):
             addr = s['zs']
             if s['lo'] == 2:
                 opsets['s1'] = {'operand_values': {'o1': {'type': 'numeric', 'argument': {'size': w, 'byte_align': False, 'valid_address': True}}}}
+            elif s['lo'] in (4, 5):
+                opsets['s1'] = {'operand_values': {'o1': {'type': 'indirect_numeric' if s['lo'] == 4 else 'deferred_numeric',
+                                                          'argument': {'size': w, 'byte_align': False, 'valid_address': True}}}}
+                wrap = ('[%s]', '[[%s]]')[s['lo'] - 4]
             else:
                 opsets['s1'] = {'operand_values': {'o1': {'type': 'address', 'argument': {'size': w, 'byte_align': False}}}}
     elif k == 'slice':
@@ -66,7 +71,7 @@ def build(s):
     if pre:
         cfg['predefined'] = pre
     org = f'.org {addr}\n' if (k in ('rel', 'slice')) else ''
-    src = org + 'ins ' + ', '.join([num(s['v'])] + extra_ops) + '\n'
+    src = org + 'ins ' + ', '.join([wrap % num(s['v'])] + extra_ops) + '\n'
     return isagen.dump(cfg), src, addr, opw, w
 
 
@@ -91,6 +96,17 @@ def evaluate(e, _second=None):
         want = e['f'] & ((1 << w) - 1)
         if field != want:
             return {'m': f'field carries {field}, specification {want} (image {obs["image"].hex()})', 'case': case}
+    if not _second:
+        # the same statement inside a muted stretch: its bytes are not emitted but its constraints still hold
+        lines = src.split('\n')
+        msrc = '\n'.join(lines[:-2] + ['#mute', lines[-2], '#emit', ''])
+        mobs = runner.run_case({'config': isa, 'files': {'main.asm': msrc}})
+        if mobs['status'] == 'timeout':
+            return {'m': 'muted: did not terminate', 'case': {'config': isa, 'files': {'main.asm': msrc}}}
+        if e['ok'] != (mobs['status'] == 'ok'):
+            return {'m': f'inside #mute .. #emit the statement is {"accepted" if mobs["status"] == "ok" else "rejected"}, '
+                         f'the value is {"admissible" if e["ok"] else "inadmissible"}: {(mobs.get("msg") or "")[:100]}',
+                    'case': {'config': isa, 'files': {'main.asm': msrc}}}
     if s['kind'] in ('rel', 'slice') and addr >= 3 and not _second:
         # the same statement as the second step of a macro (after a 3-byte step): its own address is still addr
         import yaml
@@ -112,7 +128,7 @@ def run(chk):
                 'x values on and next to each bound; relative offsets from the instruction address and from its last byte '
                 '(instruction sizes 2 and 3, with/without min/max, 4- and 8-bit fields, field-range boundaries); numeric '
                 'enumerations; zone membership for address / valid_address operands at start-1, start, end, end+1 under a '
-                'predefined zone and a redefined GLOBAL; sliced addresses on both sides of page boundaries (relative and sliced operands also as the second step of a macro, where the statement has an address of its own). TLC checks '
+                'predefined zone and a redefined GLOBAL; sliced addresses on both sides of page boundaries (relative and sliced operands also as the second step of a macro, where the statement has an address of its own; every statement also inside #mute .. #emit, where nothing is emitted but the constraint still decides acceptance; valid_address also on indirect and deferred numeric operands). TLC checks '
                 'RejectIffInadmissible (ordered checks = declarative admissible set), WidthRange, FieldFits. For every '
                 'scenario an ISA definition and a statement are generated and assembled: accept/reject must agree and the '
                 "operand's field, extracted from the image, must carry the specified value. Widths 10..64 are covered by seeded boundary-biased records validated by spec/Trace_Pack.tla on bit strings. Non-trivial = every scenario "
